@@ -382,18 +382,23 @@ def steps(ctx, d5):
             d5.fail(name, 'step-sign', 'step is not T + (target - model)/Cn', f, f.node)
     for name in ('iter_T_at_SP', 'xiter_T_at_SP'):
         f = prog.func(MX, name)
-        rets = [n for n in walk_no_nested(f.node) if isinstance(n, ast.Return)]
-        okk = len(rets) == 1
-        if okk:
-            r = rets[0].value
-            okk = isinstance(r, ast.BinOp) and isinstance(r.op, ast.Mult) and src(r.left) == 'T' and isinstance(r.right, ast.Call) \
-                and src(r.right.func) == 'exp'
-            if okk:
-                arg = Lin().form(r.right.args[0])
-                okk = _restoring(arg, 'S', 'S_model(')
-                # the same on the path that refreshes Cn
-                ps, _ = run_paths(f.node)
-                okk = okk and len(ps) == 2
+        from ..resolve import resolved, path_defs
+        ps, _ = run_paths(f.node)
+        ps = [p for p in ps if not p.raised]
+        okk = len(ps) == 2        # with and without the refresh of Cn
+        for p in ps:
+            if p.ret_node is None or p.ret_node.value is None:
+                okk = False
+                continue
+            r = resolved(p.ret_node.value, {k: v for k, v in path_defs(p).items() if not isinstance(v, ast.Call)}, keep=set(f.params))
+            if not (isinstance(r, ast.BinOp) and isinstance(r.op, ast.Mult)):
+                okk = False
+                continue
+            a, b = (r.left, r.right) if src(r.left) == 'T' else (r.right, r.left)
+            if not (src(a) == 'T' and isinstance(b, ast.Call) and src(b.func) == 'exp' and len(b.args) == 1):
+                okk = False
+                continue
+            okk = okk and _restoring(Lin().form(b.args[0]), 'S', 'S_model(')
         if okk:
             d5.ok(name, 'returns T*exp((S - model(T))/Cn)', f)
         else:
